@@ -24,10 +24,10 @@ THEOREMS = ["Qentem.Props.C04." + t for t in [
     "evaluate_eq_tree", "evaluate_eq_tree_rat", "evaluate_as_coded_before_fix_differs",
     "remChk_spec", "no_trap", "no_value_iff", "cmp_logic_01", "truth_is_positive",
     "equality_rule_text", "equality_rule_numeric", "equality_rule_number_vs_text",
-    "equality_rule_vars_textual", "add_exact", "sub_exact", "mul_exact_nat", "cmp_exact", "scan_wf", "scan_then_evaluate", "scan_total", "scan_then_evaluate_total", "scan_print_items", "scan_print"]] + [
+    "equality_rule_vars_textual", "add_exact", "sub_exact", "mul_exact_nat", "mul_exact", "exp_exact", "cmp_exact", "scan_wf", "scan_then_evaluate", "scan_total", "scan_then_evaluate_total", "scan_print_items", "scan_print"]] + [
     "Qentem.Expr.parseTop_safe"]
 OPEN_STATEMENTS = ["Qentem.Props.C04.ScanPrint in general (proved as scan_print_items / scan_print for the canonical printer over unsigned numeric leaves, all 16 operators, parentheses at any depth; open: variable and text leaves, signed literals, other spacings, redundant parentheses - exercised by correspondence)",
-                   "arith_exact for * with an Integer-kind factor and for ^ (+, -, Natural*Natural and the comparisons are proved exact; the Fraction oracle covers the rest on the real code)"]
+                   "arith_exact beyond the integer kinds: +, -, * (mul_exact), ^ with a non-negative exponent (exp_exact; 0^0 is 0 in the code and excluded) and the comparisons are proved to be integer arithmetic when the result fits 63 bits; real-kind operands, / and a negative exponent are the carrier's field operations by definition (IEEE rounding on the real code is C10; the Fraction oracle covers them here), & and | on reals truncate"]
 
 OPS = [("||", "Or"), ("&&", "And"), ("==", "Equal"), ("!=", "NotEqual"), (">=", "GreaterOrEqual"),
        ("<=", "LessOrEqual"), (">", "Greater"), ("<", "Less"), ("|", "BitwiseOr"), ("&", "BitwiseAnd"),
